@@ -8,6 +8,7 @@ use crate::delta::{DiffType, InMergeConflict, MergeParents, State, StateMachine}
 use crate::paint::{prepare, prepare_raw_line};
 use crate::style;
 use crate::utils::process::{self, CallingProcess};
+use crate::utils::round_char_boundary::floor_char_boundary;
 use crate::utils::tabs;
 
 // HACK: WordDiff should probably be a distinct top-level line state
@@ -205,7 +206,9 @@ fn new_line_state(
     let (prefix_char, prefix, in_merge_conflict) = match diff_type.clone() {
         Unified => (new_line.chars().next(), None, None),
         Combined(Number(n_parents), in_merge_conflict) => {
-            let prefix = &new_line[..min(n_parents, new_line.len())];
+            // The prefix columns are ASCII in well-formed input; do not cut inside a character
+            // when they are not.
+            let prefix = &new_line[..floor_char_boundary(new_line, min(n_parents, new_line.len()))];
             let prefix_char = match prefix.chars().find(|c| c == &'-' || c == &'+') {
                 Some(c) => Some(c),
                 None => match prefix.chars().find(|c| c != &' ') {
